@@ -89,6 +89,20 @@ fn flow<C: Ciphersuite, L: Lab<C>>(lab: &mut L, p: &Params) {
     let draws_before = lab.rng_requests().len();
     let sess = open_session::<C, L>(lab, &keys, &p.subset, msg.clone());
 
+    if !lab.symbolic() {
+        // concrete runs on the real suites: H1..H5 on inputs of many lengths (block and rate
+        // boundaries of SHA-256 / SHA-512 / SHAKE256 included) against the independent transcription
+        lab.enter("hash wiring vs RFC 6");
+        for len in [0usize, 1, 31, 32, 33, 55, 56, 63, 64, 65, 100, 111, 112, 127, 128, 129, 135, 136, 137, 255, 256, 257, 271, 272, 273, 500, 543, 544, 545, 600, 1087, 1088, 1089, 1332, 4096] {
+            let input: Vec<u8> = (0..len).map(|i| (i as u8).wrapping_mul(31).wrapping_add(len as u8)).collect();
+            lab.ref_hash(1, &input, &ser_s::<C>(&C::H1(&input)), &format!("H1 on {len} bytes = independent RFC 9591 transcription"));
+            lab.ref_hash(2, &input, &ser_s::<C>(&C::H2(&input)), &format!("H2 on {len} bytes = independent RFC 9591 transcription"));
+            lab.ref_hash(3, &input, &ser_s::<C>(&C::H3(&input)), &format!("H3 on {len} bytes = independent RFC 9591 transcription"));
+            lab.ref_hash(4, &input, C::H4(&input).as_ref(), &format!("H4 on {len} bytes = independent RFC 9591 transcription"));
+            lab.ref_hash(5, &input, C::H5(&input).as_ref(), &format!("H5 on {len} bytes = independent RFC 9591 transcription"));
+        }
+        lab.leave();
+    }
     lab.enter("round1 vs RFC 4.1");
     // commit draws 32 bytes for the hiding nonce then 32 for the binding nonce, per signer in order
     let mut spec_nonces = vec![];
